@@ -89,6 +89,32 @@ class L:
     w: Any = 0
 
 
+@symbol
+@dataclass(eq=False)
+class M:
+    """an object of a second pool: a nested an(...) as a whole branch condition asks whether one with m.v == x.<attr> exists"""
+    v: Any = 0
+    w: Any = 0
+
+
+@symbol
+@dataclass(eq=False)
+class M2(M):
+    pass
+
+
+from entity_query_language import predicate as _predicate
+
+
+@_predicate
+def n_gt(o, attr, t=2):
+    """a function predicate as (part of) a branch condition; every call is a variable of its own in the expression tree"""
+    return getattr(o, attr) > t
+
+
+POOL = []        # the M objects of the case that is being checked (set by _objs)
+
+
 CUBE = [[a, b, c] for a in (1, 3) for b in (1, 3) for c in (1, 3)]
 CONDS = [["a", 2], ["b", 2], ["c", 2], ["a", 0]]
 SIZES = {"quick": 4, "thorough": 5}   # quick reaches base + 3 alternatives, the shortest chain where the two styles differ
@@ -166,7 +192,8 @@ def plan(tier, seed):
 def floors(tier):
     return {"distinct_nontrivial": 300, "re:ExceptIf(@.*)?\\.enter": 500, "re:Alternative(@.*)?\\.enter": 500,
             "cls:shape:ref_in_ref": 20, "cls:shape:ref_in_alt": 20, "cls:shape:alt_in_ref": 20, "cls:shape:alt_chain": 20,
-            "cls:overridden": 200, "cls:alt_fired": 200, "cls:caching_off": 50, "cls:conclusions_spelled_positionally": 100, "cls:preceded_by_an_evaluation_in_which_user_code_raised": 60, "cls:earlier_rule_concluded_a_subclass_for_the_same_objects": 100, "cls:bare_call_as_branch_condition": 150,
+            "cls:overridden": 200, "cls:alt_fired": 200, "cls:caching_off": 50, "cls:conclusions_spelled_positionally": 100, "cls:preceded_by_an_evaluation_in_which_user_code_raised": 60, "cls:earlier_rule_concluded_a_subclass_for_the_same_objects": 100, "cls:bare_call_as_branch_condition": 150, "cls:or_of_operands_with_different_variables": 100,
+            "cls:nested_query_as_whole_branch_condition": 60, "cls:function_predicate_in_branch_condition": 150,
             "cls:style:sibling_alternatives": 200, "cls:join_in_tree": 300, "cls:tree_extended_after_it_was_evaluated": 150, "cls:join_item_with_two_links": 200, "cls:alternative_declared_before_refinement": 200, "re:cls:longest_alternative_chain=[3-9]": 50}
 
 
@@ -179,7 +206,15 @@ def _rand_cond(rng, depth=0):
         return ["and2", _rand_cond(rng, 1), _rand_cond(rng, 1)]
     if k < 0.6:
         return [rng.choice(["bare", "bare", "nbare"]), rng.choice(["big", "hi"])]
-    if k < 0.7:
+    if k < 0.66:
+        return ["pred", rng.choice("abc"), rng.choice([None, 1, 3])]
+    if k < 0.74 and depth == 0:
+        simple = lambda: [rng.choice("abc"), rng.randint(1, 3)]
+        pred = lambda: ["pred", rng.choice("abc"), rng.choice([None, 1, 3])]
+        return ["or2"] + rng.choice([[simple(), pred()], [pred(), simple()], [pred(), pred()], [simple(), ["bare", "big"]]])
+    if k < 0.78 and depth == 0:
+        return ["exq", rng.choice("abc")]
+    if k < 0.86:
         return ["fa", rng.randint(0, 3)]
     return [rng.choice("abc"), rng.randint(0, 3)]
 
@@ -189,7 +224,33 @@ def gen_case(rng):
     sh = rng.choice(shapes(n))
     conds = [_rand_cond(rng) for _ in range(n)]
     data = [[rng.randint(1, 4) for _ in range(3)] for _ in range(rng.randint(3, 7))]
-    return {"tree": label(sh, conds), "data": data, "caching": rng.random() < 0.7, "sibling": rng.random() < 0.5,
+    # the second pool for nested-query branch conditions: distinct values, so at most one object matches an item, and items
+    # with equal attribute values share their match
+    pool = [[v, rng.randint(1, 4), rng.random() < 0.4] for v in rng.sample([1, 2, 3, 4], rng.randint(1, 4))]
+    if rng.random() < 0.12:
+        # focus: a nested query is the whole condition of a refinement, its match comes from the second operand of its or_, and
+        # several items share the matching object
+        n = max(n, 2)
+        sh = rng.choice([s_ for s_ in shapes(n) if s_[0] is not None])
+        conds = [_rand_cond(rng) for _ in range(n)]
+        pool = [[v, rng.choice([3, 4, 4, 1]), rng.random() < 0.15] for v in rng.sample([1, 2, 3], rng.randint(1, 3))]
+        data = [[rng.choice([1, 2, 2, 3]) for _ in range(3)] for _ in range(rng.randint(3, 7))]
+        tree = label(sh, conds)
+        tree[2][0] = ["exq", rng.choice("abc")]
+    else:
+        tree = label(sh, conds)
+
+    def no_alt_for_exq(node):
+        # (like a joining branch: a nested query brings a variable of its own, "the branches before it did not fire" is only
+        #  unambiguous for a branch whose rows are the rows of its context)
+        if node is None:
+            return
+        if node[0][0] == "exq" and node[3] is not None:
+            node[0] = ["a", 2]
+        no_alt_for_exq(node[2])
+        no_alt_for_exq(node[3])
+    no_alt_for_exq(tree)
+    return {"tree": tree, "pool": pool, "data": data, "caching": rng.random() < 0.7, "sibling": rng.random() < 0.5,
             "alt_first": rng.random() < 0.4, "incremental": rng.random() < 0.4, "positional": rng.random() < 0.3,
             "decoy_rule": rng.random() < 0.2, "boom_at": rng.choice([0, 0, 1, 2, 3, 5, 8])}
 
@@ -265,6 +326,12 @@ def holds(cond, o):
         return holds(cond[1], o) and holds(cond[2], o)
     if cond[0] == "fa":          # x.fa > t, the property may raise when armed
         return o.a > cond[1]
+    if cond[0] == "pred":        # n_gt(x, attr[, t]): a function predicate
+        return getattr(o, cond[1]) > (2 if cond[2] is None else cond[2])
+    if cond[0] == "or2":         # or_(c1, c2) with operands that mention different variables (comparison / predicate call)
+        return holds(cond[1], o) or holds(cond[2], o)
+    if cond[0] == "exq":         # an(entity(m, m.v == x.attr, or_(HasType(m, M2), m.w > 2))) as the WHOLE branch condition
+        return any(m.v == getattr(o, cond[1]) and (isinstance(m, M2) or m.w > 2) for m in POOL)
     if cond[0] == "bare":        # a bare method call as the whole condition of a branch: x.big()
         return bool(getattr(o, cond[1])())
     if cond[0] == "nbare":       # ... and its negation: not_(x.big())
@@ -280,6 +347,15 @@ def sym(cond, x):
         return sym(cond[1], x) + sym(cond[2], x)
     if cond[0] == "fa":
         return [x.fa > cond[1]]
+    if cond[0] == "pred":
+        return [n_gt(x, cond[1]) if cond[2] is None else n_gt(x, cond[1], cond[2])]
+    if cond[0] == "or2":
+        from entity_query_language import or_
+        return [or_(sym(cond[1], x)[0], sym(cond[2], x)[0])]
+    if cond[0] == "exq":
+        from entity_query_language import an, entity, let, or_, HasType
+        m = let(M, POOL)
+        return [an(entity(m, m.v == getattr(x, cond[1]), or_(HasType(m, M2), m.w > 2)))]
     if cond[0] == "bare":
         return [getattr(x, cond[1])()]
     if cond[0] == "nbare":
@@ -521,6 +597,7 @@ def _links(case, objs):
 
 
 def _objs(case):
+    POOL[:] = [(M2 if m2 else M)(v=v, w=w) for v, w, m2 in case.get("pool", [])]
     data = CUBE if case["data"] == "cube" else case["data"]
     return [N(*v) for v in data]
 
@@ -572,6 +649,10 @@ def check_case(case, ctx):
         ctx.cls("cls:preceded_by_an_evaluation_in_which_user_code_raised")
     if case.get("decoy_rule") and not case.get("join"):
         ctx.cls("cls:earlier_rule_concluded_a_subclass_for_the_same_objects")
+    for kind_, name_ in (("'or2'", "or_of_operands_with_different_variables"), ("'exq'", "nested_query_as_whole_branch_condition"),
+                         ("'pred'", "function_predicate_in_branch_condition")):
+        if kind_ in repr(case["tree"]):
+            ctx.cls("cls:" + name_)
     if "bare" in repr(case["tree"]):
         ctx.cls("cls:bare_call_as_branch_condition")
     tags = {r[0] for r in exp}
